@@ -358,6 +358,17 @@ class ConnectionManager:
                 (connect_task, closing_task),
                 return_when=FIRST_COMPLETED,
             )
+            closing_task.cancel()
+
+            if self._is_closing.is_set():
+                # close() was called: abort a pending back-off or connect, and drop a connection that just arrived.
+                if not connect_task.done():
+                    connect_task.cancel()
+                    await wait((connect_task,))
+                if self._connection:
+                    transport, _ = self._connection
+                    transport.close()
+                    self._connection = None
 
             if self._connection:
                 _, protocol = self._connection
@@ -367,6 +378,7 @@ class ConnectionManager:
                     (done_task, closing_task2),
                     return_when=FIRST_COMPLETED,
                 )
+                closing_task2.cancel()
 
                 if not self._is_closing.is_set():
                     _LOGGER.warning("Connection lost")
